@@ -147,7 +147,8 @@ class PolygonFilter(object):
         subdata = data[start:end]
 
         # separate all elements and strip them
-        subdata = [[it.strip() for it in li.split("=")] for li in subdata]
+        # (split only at the first "=", the name may contain that character)
+        subdata = [[it.strip() for it in li.split("=", 1)] for li in subdata]
 
         points = []
 
